@@ -326,6 +326,125 @@ def spec_eval_import(chk, s1=("Only",), l1="la", s2=("Prefix",), l2="lb"):
         chk.oblige(ex, unit, "the target environment gains exactly the union of the import sets' bindings", z3.And(*post), inputs, replay, pre=admissible)
 
 
+PARSE_PROBES = [
+    # (import set text, expected bindings) over the library (la) exporting a b c d = 1 2 3 4
+    ("(only (la))", {}), ("(only (la) a)", {"a": 1}), ("(only (la) c a)", {"a": 1, "c": 3}),
+    ("(except (la))", {"a": 1, "b": 2, "c": 3, "d": 4}), ("(except (la) a)", {"b": 2, "c": 3, "d": 4}), ("(except (la) d a)", {"b": 2, "c": 3}),
+    ("(rename (la))", {"a": 1, "b": 2, "c": 3, "d": 4}), ("(rename (la) (a z))", {"z": 1, "b": 2, "c": 3, "d": 4}), ("(rename (la) (a y) (d z))", {"y": 1, "b": 2, "c": 3, "z": 4}),
+    ("(prefix (la) p-)", {"p-a": 1, "p-b": 2, "p-c": 3, "p-d": 4}), ("(prefix (only (la)) p-)", {}), ("(only (prefix (la) p-) p-b)", {"p-b": 2}),
+]
+
+
+def parse_probe(nat):
+    for text, want in PARSE_PROBES:
+        res, got = native_bindings(nat, text)
+        if not res.startswith("OK") or got != want:
+            return True, "(import %s) binds %s (the import-set algebra gives %s)" % (text, got if res.startswith("OK") else res, want)
+    return False, "native probes of parsed import sets (0, 1 and 2 identifiers / rename pairs per operator, nesting) bind what the algebra gives"
+
+
+def spec_import_set_parsing(chk, NI):
+    """Parser::transform_import_set: (only S id ...) (except S id ...) (prefix S p) (rename S (a b) ...) become the import-set term of
+    that operator over the parsed S with ALL the identifiers / pairs that follow, in order - also when there are none; any other
+    form is a library name (list traversal, identifier conversion and the recursive call are stubs)"""
+    from ..core import IterObj
+    ex = chk.executor(True)
+    nat = chk.ws.runner("dev")
+    unit = "Parser::transform_import_set (list traversal, transform_identifier and the nested import set stubbed)"
+    chk.region_ns = {}
+    replay = lambda vals: parse_probe(nat)
+    kw = z3.String("keyword")
+    ni = z3.Int("nitems")
+    ex.ctx.add(ni >= 0, ni <= NI)
+    form = Lazy("parser::datum::Datum", "form")
+    head = Adt("Located", None, [Adt("DatumBody", "Symbol", [StrVal(kw)]), Opaque("location", "head_loc")])
+    sub = Lazy("parser::datum::Datum", "inner_set_form")
+    rest = [Lazy("parser::datum::Datum", "item%d" % i) for i in range(NI)]
+    items = SeqObj("form_items", "parser::datum::Datum", [Cell(head), Cell(sub)] + [Cell(r) for r in rest], 2 + ni, 2 + NI)
+    inner_result = Lazy("error::Located<parser::parser::ImportSetBody>", "parsed_inner_set")
+
+    @skel.stub(ex, r"::expect_list$", "Datum::expect_list -> the form's list (opaque)")
+    def expect_list(ex_, callee, args, rt):
+        yield Ok(Opaque("DatumList", "list_of_form"))
+
+    @skel.stub(ex, r"^<(parser::pair::)?GenericPair<.*> as IntoIterator>::into_iter$|GenericPair(::)?(<.*>)?::into_iter$", "list traversal -> the form's items in order")
+    def into_iter(ex_, callee, args, rt):
+        yield IterObj("seq", seq=items, pos=0, by_ref=False, mut=False)
+
+    @skel.stub(ex, r"::transform_identifier$", "transform_identifier -> the head's keyword / a distinct name per item")
+    def tid(ex_, callee, args, rt):
+        d = ex_.deref(args[0])
+        if d is head or (isinstance(d, Adt) and d.ty == "Located" and d.fields[0] is head.fields[0]):
+            yield Ok(StrVal(kw))
+            return
+        for i, r in enumerate(rest):
+            if d is r:
+                ex_.log("ident", index=i)
+                yield Ok(StrVal("id%d" % i))
+                return
+        raise Unsupported("transform_identifier of %r" % (d,))
+
+    @skel.stub(ex, r"::transform_identifier_pair$", "transform_identifier_pair -> a distinct pair per item")
+    def tpair(ex_, callee, args, rt):
+        d = ex_.deref(args[0])
+        for i, r in enumerate(rest):
+            if d is r:
+                ex_.log("pair", index=i)
+                yield Ok(Tup([StrVal("from%d" % i), StrVal("to%d" % i)]))
+                return
+        raise Unsupported("transform_identifier_pair of %r" % (d,))
+
+    @skel.stub(ex, r"::transform_import_set$", "the nested import set -> parsed (stub), logged with the form it is given")
+    def nested(ex_, callee, args, rt):
+        ex_.log("nested", form=ex_.deref(args[0]))
+        yield Ok(inner_result)
+
+    @skel.stub(ex, r"::transform_library_name$", "transform_library_name -> a library name (stub)")
+    def tlib(ex_, callee, args, rt):
+        ex_.log("library_name")
+        yield Ok(Opaque("LibraryName", "the_library_name"))
+
+    f = ex.fn_by_suffix("::transform_import_set")
+    ex.panic_hook = lambda info: chk.oblige(ex, unit, "no-panic", z3.BoolVal(False), {"nitems": ni}, replay)
+    KW = {"only": "Only", "except": "Except", "prefix": "Prefix", "rename": "Rename"}
+    for rv in ex.run(f, [form]):
+        chk.path(unit)
+        for n in skel.each_value(ex, ni, range(NI + 1)):
+            ok = isinstance(rv, Adt) and rv.variant == "Ok"
+            res_ = ex.deref(rv.fields[0]) if ok else None
+            body = res_.fields[0] if isinstance(res_, Adt) and res_.ty == "Located" else None        # the nested set itself is no operator term
+            nest = [e for e in ex.events if e["kind"] == "nested"]
+            post = []
+            for word, variant in KW.items():
+                is_kw = kw == z3.StringVal(word)
+                good = ok and isinstance(body, Adt) and body.variant == variant and len(nest) == 1 and nest[0]["form"] is sub and ex.deref(body.fields[0]) is inner_result
+                if good and variant in ("Only", "Except", "Rename"):
+                    seq = ex.deref(body.fields[1])
+                    good = isinstance(seq, SeqObj) and skel.seq_len_term(seq) is not None
+                    if good:
+                        ln = z3.simplify(skel.seq_len_term(seq)) if not isinstance(seq.ln, int) else z3.IntVal(seq.ln)
+                        good = z3.is_int_value(ln) and ln.as_long() == n
+                        if good:
+                            for i in range(n):
+                                it = ex.deref(seq.items[i].v)
+                                want = ("id%d" % i) if variant != "Rename" else None
+                                if variant == "Rename":
+                                    good = good and isinstance(it, Tup) and it.items[0].concrete() == "from%d" % i and it.items[1].concrete() == "to%d" % i
+                                else:
+                                    good = good and isinstance(it, StrVal) and it.concrete() == want
+                elif good and variant == "Prefix":
+                    pv = ex.deref(body.fields[1])
+                    good = n >= 1 and isinstance(pv, StrVal) and pv.concrete() == "id0"
+                if variant == "Prefix" and n == 0:
+                    post.append(z3.Implies(is_kw, z3.BoolVal(not ok)))       # (prefix S) without a prefix is malformed
+                else:
+                    post.append(z3.Implies(is_kw, z3.BoolVal(bool(good))))
+            other = z3.And(*[kw != z3.StringVal(w) for w in KW])
+            post.append(z3.Implies(other, z3.BoolVal(bool(ok and isinstance(body, Adt) and body.variant == "Direct" and not nest))))
+            chk.oblige(ex, unit, "the operator's term over the nested set with all following identifiers / pairs, in order (none included); other forms are library names",
+                       z3.And(*post), {"nitems": ni}, replay)
+
+
 def run(chk):
     thorough = chk.tier == "thorough"
     exports = ["a", "b", "c", "d"] if thorough else ["a", "b", "c"]
@@ -337,7 +456,7 @@ def run(chk):
         "admissible terms only: no two exports end up under one name, a rename list renames an identifier at most once (otherwise the result depends on hash order by construction)",
         "identifiers that do not occur in the set are ignored by only/except/rename (the implementation's and the oracle's reading; R7RS calls it an error)",
         "get_library is a stub returning a fixed library; std HashMap/HashSet modelled; format!(\"{}{}\") modelled as concatenation after checking the template bytes",
-        "parsing of import sets (transform_import_set) is outside",
+        "parsing of import sets: Parser::transform_import_set is checked at mechanism level (list traversal stubbed); the reader below it is C06's subject",
     ]
     if not thorough:
         chk.step_budget_s = 90.0       # 25 units of a few seconds each: one that explodes must not starve the others
@@ -348,6 +467,8 @@ def run(chk):
             chk.step("import set %s" % (sh,), spec_import_set, chk, sh, exports[:2])
             continue
         chk.step("import set %s" % (sh,), spec_import_set, chk, sh, exports)
+    chk.run_probes("parsed import sets", parse_probe, chk.ws.runner("dev"), len(PARSE_PROBES))
+    chk.step("import set parsing", spec_import_set_parsing, chk, 2)
     chk.step("eval_import union", spec_eval_import, chk)
     # the same library twice: as a whole next to a restricted, renamed view of it (either order)
     chk.step("eval_import union whole+only/prefix", spec_eval_import, chk, (), "la", ("Only", "Prefix"), "la")
